@@ -63,13 +63,6 @@ Section Chain.
     - symmetry. apply forallb_forall. intros x Hx. apply in_rangeb_spec. rewrite Forall_forall in Hr. auto.
   Qed.
 
-  (* the statement as it was while 0-d keys were rejected (before fix e0a1c30): kept, with its now
-     superfluous hypothesis, for the files of other properties that import it *)
-  Lemma from_iter_entries (c : coo V) :
-    canon c -> (c_shape c <> [] \/ entries c = []) ->
-    from_iter_pairs veqb add (c_shape c) (entries c) (c_fill c) = Ok c.
-  Proof. intros Hc _. apply from_iter_entries_any. exact Hc. Qed.
-
   Theorem dok_roundtrip_proof (c : coo V) :
     canon c ->
     from_iter_pairs veqb add (c_shape c) (dok_items_of_coo c) (c_fill c) = Ok c
